@@ -30,6 +30,10 @@ func (rg *rootGenerator) generate() ([]*Node, error) {
 	for rg.scanner.Scan() {
 		currentNode, err := rg.nodeGenerator.generate(rg.scanner.Text(), rg.counter.next())
 		if err != nil {
+			// a failed read hands out the truncated rest of the input as a last line: report the read error
+			if rerr := rg.scanner.Err(); rerr != nil {
+				return nil, rerr
+			}
 			return nil, err
 		}
 		if currentNode == nil {
